@@ -73,7 +73,7 @@ def kind_of_T(t):
         return 'int'
     if t is C.Bool:
         return 'bool'
-    if t is C.Bytes:
+    if t is C.Bytes or isinstance(t, C.BytesN):
         return 'bytes'
     if isinstance(t, C.Opaque):
         return ('opq', t.tag)
@@ -277,6 +277,16 @@ class Config:
             return path.fresh_sym('bool', hint)
         if t is C.Bytes:
             return path.fresh_sym('bytes', hint)
+        if isinstance(t, C.BytesN):
+            if t.n == 0:
+                return b''
+            units = []
+            for i in range(t.n):
+                b = z3.Int(path.fresh_name(f'{hint}[{i}]'))
+                path.add_def(z3.And(b >= 0, b <= 255))
+                M.mark_byte(path, b)
+                units.append(z3.Unit(b))
+            return Sym(units[0] if len(units) == 1 else z3.Concat(*units), 'bytes')
         if t is C.ByteArray:
             return path.alloc(BAObj(path.fresh_sym('bytes', hint)))
         if t is C.Str:
@@ -627,7 +637,21 @@ class Config:
         env2 = dict(env)
         env2['old'] = OldView(old_env, snap)
         if k == 0:
-            res = self.fresh(path, c2.returns, 'res') if c2.returns is not None else None
+            # functional contracts: `assigns={'self.f': fn}` gives the new value of a modified field and
+            # `result=fn` the return value as spec expressions of the entry state (instead of a fresh
+            # value constrained by `ensures`)
+            for loc, fn in (c2.extra.get('assigns') or {}).items():
+                base, _, fld = loc.rpartition('.')
+                tgt = env[base] if base in env else None
+                if not isinstance(tgt, Ref):
+                    raise Unsupported(f'assigns: cannot resolve {loc}')
+                v = self.spec_eval(path, fn, env2)
+                path.wobj(tgt).fields[fld] = v
+            rf = c2.extra.get('result')
+            if rf is not None:
+                res = self.spec_eval(path, rf, env2)
+            else:
+                res = self.fresh(path, c2.returns, 'res') if c2.returns is not None else None
             env2['res'] = res
             if c2.ensures is not None:
                 for cl in self.clauses(path, c2.ensures, env2):
@@ -896,5 +920,22 @@ def run_path(cfg, path, top, func, is_lemma):
         names = top.ensures_names if getattr(top, 'ensures_names', None) else None
         for i, cl in enumerate(cfg.clauses(path, top.ensures, post_env)):
             path.oblige(cfg.obl_name(path, 'post', names[i] if names and i < len(names) else i), 'post', cl)
+    extra = getattr(top, 'extra', {}) or {}
+    if extra.get('result') is not None:
+        path.spec_mode += 1
+        try:
+            want = cfg.spec_eval(path, extra['result'], post_env)
+            path.oblige(cfg.obl_name(path, 'post', 'result'), 'post', path.truth(M.equal(path, result, want)))
+        finally:
+            path.spec_mode -= 1
+    for loc, fn in (extra.get('assigns') or {}).items():
+        base, _, fld = loc.rpartition('.')
+        path.spec_mode += 1
+        try:
+            want = cfg.spec_eval(path, fn, post_env)
+            got = path.getattr(env[base], fld)
+            path.oblige(cfg.obl_name(path, 'post', f'assigns-{loc}'), 'post', path.truth(M.equal(path, got, want)))
+        finally:
+            path.spec_mode -= 1
     cfg.check_frame(path, 'post')
     return 'normal'
